@@ -368,6 +368,80 @@ func gcase(c gcaseJ) (string, error) {
 	return out, nil
 }
 
+// ---------------------------------------------------------------- (w) http.Handler variant: calls on the ResponseWriter
+type wcaseJ struct {
+	Meth string
+	R    respJ
+}
+
+// recRW records what writeResponse does to an http.ResponseWriter.
+type recRW struct {
+	hdr      http.Header
+	atHeader http.Header
+	code     int
+	flush0   bool
+	writes   []string
+	flags    []bool
+}
+
+func (w *recRW) Header() http.Header { return w.hdr }
+func (w *recRW) WriteHeader(code int) {
+	w.code = code
+	w.atHeader = w.hdr.Clone()
+}
+func (w *recRW) Write(p []byte) (int, error) {
+	w.writes = append(w.writes, string(p))
+	w.flags = append(w.flags, false)
+	return len(p), nil
+}
+func (w *recRW) Flush() {
+	if len(w.writes) == 0 {
+		w.flush0 = w.atHeader != nil
+		return
+	}
+	w.flags[len(w.flags)-1] = true
+}
+
+func wcase(c wcaseJ) string {
+	rw := &recRW{hdr: http.Header{}}
+	var body io.ReadCloser
+	sb := &scripted{pieces: append([]string(nil), c.R.Body...)}
+	if len(c.R.Body) > 0 {
+		body = sb
+	}
+	res := c.R.toHTTP(c.Meth, body)
+	if len(c.R.Late) > 0 && body != nil {
+		sb.onEOF = func() {
+			if res.Trailer == nil {
+				res.Trailer = c.R.Late.Clone()
+				return
+			}
+			for k, vv := range c.R.Late {
+				res.Trailer[k] = vv
+			}
+		}
+	}
+	hook.HandlerWriteResponse(rw, res)
+	var order []string
+	if len(c.R.Trailer) > 0 {
+		for _, v := range rw.atHeader["Trailer"] {
+			for _, k := range strings.Split(v, ", ") {
+				order = append(order, k)
+			}
+		}
+	}
+	rj := c.R
+	rj.Body = append(append([]string(nil), sb.got...), sb.pieces...)
+	if body == nil {
+		rj.Body, rj.Late = nil, nil
+	}
+	out := fmt.Sprintf("{| w_meth := %s; w_resp := %s; w_order := %s; w_hdr := %s; w_code := %d; w_flush0 := %s; w_writes := %s; w_flags := %s; w_final := %s |}",
+		coqfmt.Str(c.Meth), coqResp(rj), coqfmt.StrList(order), coqfmt.Header(rw.atHeader), rw.code, coqfmt.Bool(rw.flush0),
+		cstrList(rw.writes), coqBools(rw.flags), coqfmt.Header(rw.hdr))
+	note(out, len(rw.writes) > 0 || len(c.R.Trailer) > 0)
+	return out
+}
+
 // ---------------------------------------------------------------- shards
 type shardSet struct {
 	dir       string
@@ -748,6 +822,58 @@ func main() {
 	ss.shardSize = m.ShardSize
 	writeJSONL(*out, "gcases.jsonl", gj)
 
+	// ---------------------------------------------------------------- (w) http.Handler variant
+	var wc []string
+	var wj []any
+	nW := 400
+	if thorough {
+		nW = 5000
+	}
+	canonHdr := func(h http.Header) http.Header { // the transport delivers canonical keys
+		out := http.Header{}
+		for k, vv := range h {
+			if k == "X-Odd Name" || k == "Connection" {
+				continue
+			}
+			out[http.CanonicalHeaderKey(k)] = append(out[http.CanonicalHeaderKey(k)], vv...)
+		}
+		return out
+	}
+	for k := 0; k < nW; k++ {
+		code := []int{200, 200, 404, 500, 206, 204, 304, 201}[r.Intn(8)]
+		meth := []string{"GET", "GET", "POST", "HEAD"}[r.Intn(4)]
+		rj := respJ{Major: 1, Minor: 1, Code: code, Status: statusString(r, code), Hdr: canonHdr(genHeader(r, 4))}
+		if r.Chance(1, 8) {
+			rj.Minor = 0
+		}
+		bodiless := meth == "HEAD" || code == 204 || code == 304
+		if !bodiless {
+			np := r.Intn(5)
+			for q := 0; q < np; q++ {
+				rj.Body = append(rj.Body, r.Pick(bodyPieces))
+			}
+		}
+		total := int64(len(strings.Join(rj.Body, "")))
+		switch r.Intn(3) {
+		case 0:
+			rj.CL, rj.Chunked, rj.Trailer = -1, true, genTrailer(r)
+			if r.Chance(1, 3) && total > 0 {
+				rj.Late = http.Header{"X-Late": {"l"}}
+			}
+		case 1:
+			rj.CL = total
+		default:
+			rj.CL, rj.Close = -1, true
+		}
+		c := wcaseJ{meth, rj}
+		wc = append(wc, wcase(c))
+		wj = append(wj, c)
+	}
+	m.Counts["wcases"] = len(wc)
+	ss.write("wcases", "wcase", "wcase_model_ok", "wcase_prop_ok", wc)
+	writeJSONL(*out, "wcases.jsonl", wj)
+	m.Samples["wcase"] = wj[len(wj)-1]
+
 	m.Samples["hcase"] = hj[len(hj)-1]
 	m.Samples["fcase"] = fj[len(fj)-1]
 	m.Samples["gcase"] = gj[len(gj)/2]
@@ -806,6 +932,11 @@ func runReplay(path string, ss *shardSet, m *meta, sse, chunk [][2]byte) {
 		}
 		ss.write("fcases", "fcase", "fcase_model_ok", "fcase_prop_ok", []string{s})
 		writeJSONL(ss.dir, "fcases.jsonl", []any{c})
+	case "wcases":
+		var c wcaseJ
+		json.Unmarshal(rp.Case, &c)
+		ss.write("wcases", "wcase", "wcase_model_ok", "wcase_prop_ok", []string{wcase(c)})
+		writeJSONL(ss.dir, "wcases.jsonl", []any{c})
 	case "gcases":
 		var c gcaseJ
 		json.Unmarshal(rp.Case, &c)
